@@ -90,5 +90,9 @@ func sJSON(v interface{}) string {
 func jevalCmd(c *evalCase) string {
 	var pats []string
 	se := sExpr(c.ast, &pats)
-	return fmt.Sprintf("(jeval %s %s %s)", se, sJSON(c.d), reTable(pats, c.d))
+	unk := "none"
+	if c.unkSet {
+		unk = "(some " + sJSON(c.unk) + ")"
+	}
+	return fmt.Sprintf("(jeval %s %s %s %s)", unk, se, sJSON(c.d), reTable(pats, c.d, c.unk))
 }
